@@ -17,6 +17,10 @@
 #                                FLAGS - or letters r (rtsp:// url) u (no url key) n (no stream_name key); result <spull result>~T:R:A:M as the group took them
 #         hxpull.S|a   stop_relay_pull       hkick.S|a.NAME|a   kick_session
 #         hpp.S|a.N.P.T.F  start_rtp_pub with port P, timeout_ms T, is_tcp_flag F; result <code>~<timeout s>:<tcp> when accepted
+#                          P = b: an explicit port that cannot be bound - the harness holds a udp (tcp when F asks for tcp) socket on it
+#       pp.S.N.b     start_rtp_pub (direct call) for a udp port the harness holds: Listen fails
+#       spull.S.0.A.bad | .badrtsp | .http   start_relay_pull with a malformed rtmp / rtsp url or a scheme without pull session:
+#                    the attempt starts (answer 0:<attempt>) and fails by itself in the same step (only with retry budget 0)
 #         1002 = param missing: nothing was called
 #       ds.S.N[.deny]  rtsp DESCRIBE     pl.N           rtsp PLAY       fs.S.N[.deny] http-flv   ts.S.N[.deny] http-ts
 #       cp.S.N         customize pub     pp.S.N         start_rtp_pub   gone.N        connection ends / DelCustomizePubSession
@@ -178,6 +182,10 @@ def rand_history(rng, n_ops, streams):
             k = rng.choice(["rp", "rp", "ap", "cp", "pp"])
             i = nid()
             deny = ".deny" if (k in ("rp", "ap") and rng.random() < 0.1) else ""
+            if k == "pp" and rng.random() < 0.3:
+                # a start_rtp_pub whose port cannot be bound
+                ops.append(rng.choice(["pp.%d.%d.b" % (s, i), "hpp.%d.%d.b.a.%s" % (s, i, rng.choice(["0", "1"]))]))
+                continue
             ops.append("%s.%d.%d%s" % (k, s, i, deny))
             live.append((i, k, s))
         elif r < 0.42 and not disposed:
@@ -306,7 +314,27 @@ def gen_content():
     yield Case(line(["fs.1.90", "fs.1.91", "spull.1.n1.n1", "psuccm.1.0", "gone.90", "pdone.1.0", "rp.1.1", "psuccm.1.0", "media.1", "gone.1", "psuccm.1.0", "tick.1"]), cls="content-accepted")
 
 
+def gen_listen_fail():
+    # start_rtp_pub whose port cannot be bound (udp / tcp, through the API server and directly), in every input situation of the
+    # stream; then the stream must take inputs as before, an idle group must be reaped, stat must not list the failed call
+    for a in ("none", "rp", "ap", "cp", "pp", "pull", "rpull", "held"):
+        pre = [] if a == "none" else arrive(a, 1, 1)
+        post = [] if a == "none" else depart(a, 1, 1, "gone")
+        yield Case(line(["fs.1.90"] + pre + ["hpp.1.5.b.a.0", "hpp.1.6.b.a.1", "pp.1.7.b", "tick.1"] + post + ["hpp.1.8.b.70000.1", "tick.2", "rp.1.9", "gone.9", "hpp.1.10.a.a.1", "kick.1.c10",
+                         "gone.90", "tick.3", "tick.4"]), cls="listenfail-" + a)
+    # nobody else on the stream: the group the call created goes away at the next tick; kick of the failed session finds nothing
+    yield Case(line(["hpp.1.1.b.a.0", "kick.1.c1", "tick.1", "tick.2", "pp.2.2.b", "hpp.2.3.b.0.7", "tick.3", "pp.2.4", "kick.2.c4", "tick.4", "tick.5"]), cls="listenfail-idle")
+    yield Case(line(["pp.1.1.b", "pp.1.2", "hpp.1.3.b.a.1", "kick.1.c2", "hpp.1.4.b.a.0", "cp.1.5", "gone.5", "tick.1", "dispose", "pp.1.6.b"]), cls="listenfail-idle")
+    yield Case(line(["hpp.1.1.b.q.0", "hpp.a.2.b.a.a", "hpp.1.3.b.a.q", "hpp.1.4.b.z.z", "tick.1", "ap.1.5", "sdp.1", "hpp.1.6.b.a.1", "sdp.1", "gone.5", "tick.2"]), cls="listenfail-idle")
+    # relay pulls that fail by themselves before any connection exists (malformed url, scheme without pull session)
+    for u in ("bad", "badrtsp", "http"):
+        yield Case(line(["spull.1.0.n1." + u, "tick.1", "fs.1.90", "tick.2", "spull.1.0.0." + u, "xpull.1", "spull.1.0.5000." + u, "rp.1.1", "spull.1.0.n1." + u, "gone.1", "tick.3",
+                         "xpull.1", "spull.1.0.n1", "psuccm.1.0", "tick.4", "gone.90", "pdone.1.0", "tick.5"]), cls="pullselffail")
+    yield Case(line(["fs.1.90", "pfail.1.0", "spull.1.0.n1.bad", "tick.1", "xpull.1", "spull.1.0.n1.http", "tick.2", "tick.3"], "static=1"), cls="pullselffail")
+
+
 def gen_cases(tier, rng):
+    yield from gen_listen_fail()
     yield from gen_content()
     yield from gen_rtmp_conn()
     yield from gen_api_inputs()
@@ -420,11 +448,12 @@ def api_layer(ops, out):
             missing = f[1] == "a" or f[2] == "a"
             nop = "kick.%s.%s" % (f[1], f[2])
         elif f[0] == "hpp":
-            vals = [api_value(t, k) for t, k in zip(f[3:6], ["port", "timeout_ms", "is_tcp_flag"])]
+            busy = f[3] == "b"      # an explicit port (given as given) that cannot be bound
+            vals = [api_value("1" if busy else f[3], "port")] + [api_value(t, k) for t, k in zip(f[4:6], ["timeout_ms", "is_tcp_flag"])]
             missing = f[1] == "a" or None in vals
             if not missing:
                 r0, _, sfx = res.partition("~")
-                nop, nres = "pp.%s.%s" % (f[1], f[2]), r0
+                nop, nres = "pp.%s.%s%s" % (f[1], f[2], ".b" if busy else ""), r0
                 if r0 == "0":
                     want = "%d:%d" % (vals[1] // 1000, 1 if vals[2] != 0 else 0)
                     if sfx != want:
@@ -513,6 +542,17 @@ def oracle(c, out):
                             if accepted.get(m):
                                 gone.add(m)
                 before = prev.get(subj_stream)
+                if o == "pp" and len(f) > 3 and f[3] == "b":
+                    # a start_rtp_pub whose port cannot be bound is a refused input: an error answer ("input already exists" when
+                    # the stream has one, else "listen failed"); the clauses for refused sessions below do the rest (it occupies
+                    # nothing, stat does not list it, the accepted input is left alone)
+                    want = "2003" if (before and occupants(before)) else "2002"
+                    if res != want:
+                        return (False, where + "start_rtp_pub for a port that cannot be bound answered %s, expected %s" % (res, want))
+                    occ_a = occupants(groups.get(subj_stream))
+                    stray = [x for x in occ_a if x == subject or (x.startswith("?") and x not in (occupants(before) if before else []))]
+                    if stray:
+                        return (False, where + "start_rtp_pub failed to listen (answer %s) but its session (%s) stays registered as the input of %s" % (res, stray[0], subj_stream))
                 # (b) an input that arrives while another is accepted is refused
                 if o in INPUT_OPS and before and occupants(before) and ok:
                     return (False, where + "accepted although %s is the input of %s" % (occupants(before)[0], subj_stream))
